@@ -346,6 +346,13 @@ parse_next_record_header:
         }
 
         ptLen = ssl->rec.len - AEAD_TAG_LEN(ssl);
+        if (ptLen == 0 || ptLen > ssl->rec.len)
+        {
+            /* No room for the TLSInnerPlaintext type octet (not every
+               decrypt callback rejects a record that is only a tag). */
+            ssl->err = SSL_ALERT_UNEXPECTED_MESSAGE;
+            goto encodeResponse;
+        }
         ptLen--; /* TLSInnerPlaintext type. */
 
         /* Deal with TLSInnerPlaintext padding. */
